@@ -84,6 +84,7 @@ class ThreadSim:
         self._blocks: t.List[int] = []
         self.lock_waits = 0
         self._marked: t.Optional[str] = None
+        self._shared_cache: t.Dict[t.Any, t.FrozenSet[int]] = {}
         self.marks_seen = 0
         self.marks_used = 0
         self.ts: t.List[_T] = []
@@ -177,8 +178,15 @@ class ThreadSim:
         opcode = self.opcode
         point = self._point
 
+        shared_lines = self._shared_lines
+
         def local(frame, event, arg):
             if event == ("opcode" if opcode else "line"):
+                if frame.f_lineno in shared_lines(frame):
+                    # the line about to run reads or writes module-level state that is shared by every thread of the process:
+                    # the place where a pre-emption matters most (policy "marks" may take it)
+                    self._marked = "shared-state"
+                    self.marks_seen += 1
                 point(me)
             return local
 
@@ -191,23 +199,58 @@ class ThreadSim:
 
         return glob
 
+    def _shared_lines(self, frame) -> t.FrozenSet[int]:
+        """Lines of the frame's code that WRITE module-level state or read a module-level name this function also rebinds: a
+        STORE_GLOBAL / DELETE_GLOBAL, a LOAD_GLOBAL of a name rebound in this function (check-then-act on a memo), or a line that
+        loads a module-level mutable container (dict, list, set, bytearray) and stores into it / calls a mutating method on it.
+        Plain reads of module-level registries are not included (they are everywhere and never race on their own)."""
+        code = frame.f_code
+        got = self._shared_cache.get(code)
+        if got is None:
+            import dis
+
+            MUTATORS = {"append", "extend", "insert", "pop", "popitem", "clear", "update", "setdefault", "add", "discard", "remove", "sort", "reverse"}
+            ins_list = list(dis.get_instructions(code))
+            rebound = {i.argval for i in ins_list if i.opname in ("STORE_GLOBAL", "DELETE_GLOBAL")}
+            g = frame.f_globals
+            per_line: t.Dict[int, list] = {}
+            cur = code.co_firstlineno
+            for i in ins_list:
+                if i.starts_line:
+                    cur = i.starts_line
+                per_line.setdefault(cur, []).append(i)
+            lines: t.Set[int] = set()
+            for ln, group in per_line.items():
+                ops = {i.opname for i in group}
+                loads = [i.argval for i in group if i.opname == "LOAD_GLOBAL"]
+                if ops & {"STORE_GLOBAL", "DELETE_GLOBAL"} or any(n in rebound for n in loads):
+                    lines.add(ln)
+                elif any(isinstance(g.get(n), (dict, list, set, bytearray)) for n in loads):
+                    attrs = {i.argval for i in group if i.opname in ("LOAD_ATTR", "LOAD_METHOD")}
+                    if ops & {"STORE_SUBSCR", "DELETE_SUBSCR", "STORE_SLICE"} or attrs & MUTATORS:
+                        lines.add(ln)
+            got = self._shared_cache[code] = frozenset(lines)
+        return got
+
     def _mk_profile(self, me: _T):
         """Marks every return from code outside the library (an extension-module call such as an AES or HMAC operation, or a
         third-party Python function) back into a library frame: the state such a call leaves behind (a buffer it filled, an
         object it returned) is in flight exactly then."""
         prefix = self.src_prefix
+        stdlib = getattr(sys, "stdlib_module_names", frozenset()) | {"builtins"}
 
         def prof(frame, event, arg):
+            # (only third-party code counts: the standard library is called on nearly every line and would drown the signal)
             if event == "c_return":
                 if frame.f_code.co_filename.startswith(prefix):
                     owner = getattr(arg, "__self__", None)
                     mod = getattr(arg, "__module__", None) or (type(owner).__module__ if owner is not None else None)
-                    if mod not in (None, "builtins"):
+                    if mod and mod.split(".")[0] not in stdlib:
                         self._marked = "extcall"
                         self.marks_seen += 1
             elif event == "return":
                 back = frame.f_back
-                if back is not None and back.f_code.co_filename.startswith(prefix) and not frame.f_code.co_filename.startswith(prefix):
+                if back is not None and back.f_code.co_filename.startswith(prefix) and "site-packages" in frame.f_code.co_filename:
                     self._marked = "extcall"
                     self.marks_seen += 1
 
